@@ -450,6 +450,17 @@ func genC17Context(t *rapid.T) *C17Context {
 		pos := rapid.IntRange(0, len(f.Tops)).Draw(t, "fpos")
 		f.Tops = append(f.Tops[:pos], append([]*Top{top}, f.Tops[pos:]...)...)
 	}
+	// a constant defined somewhere in the middle; its name is used as a plain identifier before the definition
+	// and as the constant after it: what a script compiles to depends on the definitions before it only
+	if scs := f.Scripts(); len(scs) >= 2 && rapid.IntRange(0, 2).Draw(t, "lateconst") == 0 {
+		for _, sc := range scs {
+			if rapid.IntRange(0, 2).Draw(t, "uselate") != 0 {
+				sc.Body.Stmts = append([]*Stmt{sCmd(&Cmd{Name: "uselate", Args: plainArgs("LATE_K", "1")})}, sc.Body.Stmts...)
+			}
+		}
+		pos := rapid.IntRange(1, len(f.Tops)).Draw(t, "latepos")
+		f.Tops = append(f.Tops[:pos], append([]*Top{{K: "const", Const: &Const{Name: "LATE_K", Val: []string{"5"}}}}, f.Tops[pos:]...)...)
+	}
 	// the same text formatted twice with the same font and length but other numLines / cursorOverlapWidth:
 	// each statement is formatted with its own parameters
 	if rapid.IntRange(0, 3).Draw(t, "formatpair") == 0 {
